@@ -1,11 +1,11 @@
 package main
 
 import (
-	"regexp"
 	"encoding/json"
 	"fmt"
 	"golang.org/x/tools/go/ssa"
 	"os"
+	"regexp"
 	"sort"
 	"strings"
 	"sync"
@@ -457,7 +457,9 @@ func cmdCheck(args []string) int {
 	wd, _ := os.MkdirTemp("/var/tmp", "sonicvc-")
 	defer os.RemoveAll(wd)
 	opt := solveOpts{secs: secs, all: all, workdir: wd, keep: true}
-	filter := func(o *Obligation) bool { return hasProp(o.Props, prop) || depOnly[o.Fn] || depOnly[stripTypeArgs(o.Fn)] }
+	filter := func(o *Obligation) bool {
+		return hasProp(o.Props, prop) || depOnly[o.Fn] || depOnly[stripTypeArgs(o.Fn)]
+	}
 	res := verifyFunctions(P, C, keys, opt, filter)
 	// an obligation no solver decided within the limit is tried again, on its own and with
 	// four times the limit, before it is reported: a time-out under load is not a violation
